@@ -14,6 +14,24 @@ def esc(x):
     return str(x).replace('|', '\\|').replace('\n', ' ')
 
 
+def seeded_stats():
+    import glob
+    tot, missed, now_missed = 0, [], []
+    for d in sorted(glob.glob(os.path.join(VERIF, 'seeded', 'C*'))):
+        try:
+            v = json.load(open(os.path.join(d, 'meta.json'))).get('verified_by_pvmon', {})
+        except Exception:
+            continue
+        tot += 1
+        if any(list(e.values())[0]['rc'] == 0 for e in v.get('earlier_results', [])):
+            missed.append(os.path.basename(d))
+        if any(c.get('rc') != 1 for c in v.get('checks', {}).values()):
+            now_missed.append(os.path.basename(d))
+    return ('%d changes are kept.  **%d were caught by the version of the check they first met; %d were missed at first** (%s) and are caught now.%s'
+            % (tot, tot - len(missed), len(missed), ', '.join('`%s`' % m for m in missed),
+               ('  Not caught at present: %s.' % ', '.join(now_missed)) if now_missed else '  `tools/seeds_regress.py` reports no change as missed at present.'))
+
+
 def fixed_table():
     import json
     k = json.load(open(os.path.join(VERIF, 'known_findings.json')))
@@ -104,6 +122,7 @@ def main():
     s = open(p).read()
     t = subprocess.run([sys.executable, os.path.join(VERIF, 'tools', 'seeded_table.py')], capture_output=True, text=True, check=True).stdout
     s = put(s, 'seeded-table', t)
+    s = put(s, 'seeded-stats', seeded_stats())
     s = put(s, 'fixed-table', fixed_table())
     s = put(s, 'figures-table', figures_table())
     for pid, text in asbuilt().items():
